@@ -438,7 +438,9 @@ func (s *c11Sys) stateKey(r *c11Real, st c11model.State) (key [16]byte, aliasGlo
 					if o.a == a {
 						if o.slot == -1 {
 							aliasGlobal = true
-						} else if o.slot != slot {
+						} else {
+							// also WITHIN one slot: an element whose two coordinates are one big.Int
+							// behaves differently from one with separate coordinates, so it is a different state
 							aliasSlots = true
 						}
 						continue next
